@@ -302,6 +302,8 @@ def run_scenario(sc, scratch, keep_objects=False):
             o = {'raised': raised, 'exc': exc, 'slot': abs_slot(p), 'sha_before': before_sha, 'sha_after': sha(p)}
             if fstate is not None:
                 o['n_mut'] = fstate['n']; o['fault_fired'] = fstate['fired']
+                if st['fault'] < 0:
+                    o['mut_kinds'] = [x.split(' ')[0] for x in fstate['log']]
                 o['fault_at'] = fstate['log'][st['fault']] if 0 <= st['fault'] < len(fstate['log']) else None
             if probe_before is not None:
                 o['probe_before'] = probe_before
